@@ -264,7 +264,7 @@ def main(tier: str, replay: str | None = None):
     cfg = f"Scope_{tier}.cfg"
     consts = {"FAMS": tla_set(["scope", "rel"])}
     jobs = {}
-    # two TLC JVMs at a time (tlc.run holds a machine-wide slot per JVM): the main run, and the seven small defect-domain
+    # two TLC JVMs at a time (tlc.run holds a machine-wide slot per JVM): the main run, and the six small defect-domain
     # runs one after the other; the latter overlap with the replay of the main run
     pool = ThreadPoolExecutor(max_workers=1)
     main_pool = ThreadPoolExecutor(max_workers=1)
